@@ -107,14 +107,15 @@ CnnRemoveLayer(c, a) ==                                                    \* cn
   IF Len(a.ch) > c.minl
   THEN { R([ch |-> Front(a.ch), ks |-> Front(a.ks), st |-> Front(a.st)], "remove_layer", 0, 0, 0) }
   ELSE CnnAddChannel(c, a)
-\* change_kernel: with one layer falls back to add_layer; else layer 2..min(4,L) (never the first),
+\* change_kernel: with one layer falls back to add_layer; else layer 2..min(4,L) when the layer is drawn (never
+\* the first), ANY layer 1..L when the caller names it (hidden_layer argument);
 \* kernel 1..maxk(layer)  (cnn.py:501-515, 143-165).  Inside a network the encoder's layer mutations are
 \* disabled: the fall-back add_layer then returns at once (modules/base.py:184-187), nothing changes and
 \* last_mutation_attr is None -- "stopped by a bound, no change".
 CnnChangeKernel(c, a) ==
   LET L == Len(a.ch) IN
   IF L > 1
-  THEN UNION { { R([a EXCEPT !.ks[l] = k], "change_kernel", l, k, 0) : k \in 1..CnnMaxK(c, a, l) } : l \in 2..Min2(4, L) }
+  THEN UNION { { R([a EXCEPT !.ks[l] = k], "change_kernel", l, k, 0) : k \in 1..CnnMaxK(c, a, l) } : l \in 1..L }
   ELSE IF c.nolayer THEN { R(a, "None", 0, 0, 0) } ELSE CnnAddLayer(c, a)
 CnnSucc(c, a, m) ==
   CASE m = "add_layer"      -> CnnAddLayer(c, a)
@@ -405,7 +406,7 @@ BlockAdvertised(c, a, m, b, applied, args) ==
   /\ applied = Narrow(c) => /\ p \in 1..Len(w) /\ Layers(c, b) = L
                             /\ w2 = IF NarrowFits(c, w[p], args.k) THEN [w EXCEPT ![p] = @ - args.k] ELSE w
                             /\ c.kind = "cnn" => b.ks = a.ks /\ b.st = a.st
-  /\ applied = "change_kernel" => /\ b.ch = a.ch /\ b.st = a.st /\ args.l \in 2..Min2(4, L)
+  /\ applied = "change_kernel" => /\ b.ch = a.ch /\ b.st = a.st /\ args.l \in 1..L
                                   /\ args.k >= 1 /\ args.k <= CnnMaxK(c, a, args.l)
                                   /\ b.ks = [a.ks EXCEPT ![args.l] = args.k]
   /\ applied \in BlockMethods(c) \cup {"None"}
